@@ -23,7 +23,7 @@ import (
 func init() {
 	kernel.Register(&kernel.World{
 		Property: "C08", Bubble: true, Run: runC08, RunsPerProc: 6, RunTimeout: 600 * time.Second,
-		Rule: "one evaluation = one tape-generated victim session (CONNECT with/without will and will-key kind, 2-7 further packets: subscribe incl. XOR-twin and wildcard filters, unsubscribe, presence-change request, link with auto-subscribe, publish) for which every byte offset is enumerated as a cut point x {abrupt close, idle past the read deadline (quick tier: every 4th offset and every packet boundary)} plus {malformed header, DISCONNECT, handler panic} at every packet boundary, each on a fresh victim connection against the same broker and three watcher clients; non-trivial = the victim held >= 1 subscription at >= 1 cut; distinct = distinct canonical logs of whole enumerations; coverage.cuts counts the enumerated (offset, ending) pairs",
+		Rule: "one evaluation = one tape-generated victim session (CONNECT with/without will and will-key kind, 2-7 further packets: subscribe incl. XOR-twin and wildcard filters, unsubscribe, presence-change request, link with auto-subscribe, publish) for which every byte offset is enumerated as a cut point x {abrupt close, write side failing first (replies and deliveries fail before the read loop sees the end), idle past the read deadline (quick tier: every 4th offset and every packet boundary)} plus {malformed header, DISCONNECT, handler panic} at every packet boundary, each on a fresh victim connection against the same broker and three watcher clients; non-trivial = the victim held >= 1 subscription at >= 1 cut; distinct = distinct canonical logs of whole enumerations; coverage.cuts counts the enumerated (offset, ending) pairs",
 		Real:  []string{"broker.Service", "broker.Conn.Process/Close", "pubsub (Unsubscribe, OnLastWill)", "presence notifications", "link", "message.Trie", "message.Counters", "cluster.Swarm (single node)"},
 		Stub:  []string{"client sockets (simnet: close/abort/cut at a byte, deadlines on the fake clock)", "weaveworks/mesh (simmesh, no peers)", "clock (synctest)"},
 		Assumptions: []string{"a cut lands between two socket reads of the broker (bytes before the cut were delivered and processed)", "process kill is not a connection end (C15 covers it)"},
@@ -220,7 +220,7 @@ func runC08(c *kernel.Ctx) {
 				npk = i + 1
 			}
 		}
-		endings := []string{"close"}
+		endings := []string{"close", "deadwrite"}
 		_, atBound := isBound[cut]
 		if stride == 1 || atBound || cut%idleStride == 0 {
 			endings = append(endings, "idle")
@@ -231,7 +231,7 @@ func runC08(c *kernel.Ctx) {
 			endings = append(endings, "malformed", "disconnect", "panic")
 		}
 		for _, e := range endings {
-			if w.oneCut(cut, npk, e, build, ops, willKind) {
+			if w.oneCut(cut, npk, atBound, e, build, ops, willKind) {
 				nontriv = true
 			}
 		}
@@ -244,20 +244,44 @@ func runC08(c *kernel.Ctx) {
 }
 
 // oneCut runs a fresh victim connection that is fed `cut` bytes and then ends in way `ending`.
-func (w *c08World) oneCut(cut, npk int, ending string, build func(string) ([]byte, []int), ops []c08Op, willKind int) bool {
+func (w *c08World) oneCut(cut, npk int, atBoundary bool, ending string, build func(string) ([]byte, []int), ops []c08Op, willKind int) bool {
 	c := w.c
 	w.cuts++
 	w.victimN++
 	user := fmt.Sprintf("victim-%04d", w.victimN%10000)
 	stream, _ := build(user)
 	v := w.b.Attach("victim")
-	// feed in two pieces so that packets before the cut are processed normally
-	v.Conn.Write(stream[:cut])
-	world.Settle()
+	if ending == "deadwrite" {
+		// the broker's writes to the victim start failing before its read loop
+		// notices anything: packets up to the previous boundary are served
+		// normally, the rest is processed with failing replies
+		_, bounds := build(user)
+		pb := 0
+		for _, b := range bounds {
+			if b < cut {
+				pb = b
+			}
+		}
+		v.Conn.Write(stream[:pb])
+		world.Settle()
+		w.pw.Recv() // what the watchers saw while the connection was healthy
+		w.will.Recv()
+		w.other.Recv()
+		v.Conn.BreakPeerWrites()
+		v.Conn.Write(stream[pb:cut])
+		world.Settle()
+	} else {
+		v.Conn.Write(stream[:cut])
+		world.Settle()
+		w.pw.Recv()
+		w.will.Recv()
+		w.other.Recv()
+	}
 
 	// model: state after the first npk packets
 	subs := map[string]bool{}
 	connected := npk >= 1
+	lateUnsub := "" // deadwrite: an UNSUBSCRIBE served after the write side died still tells presence watchers
 	for i := 0; i < npk-1; i++ {
 		o := ops[i]
 		switch o.kind {
@@ -266,15 +290,12 @@ func (w *c08World) oneCut(cut, npk int, ending string, build func(string) ([]byt
 				subs[f] = true
 			}
 		case "unsub":
+			if ending == "deadwrite" && i == npk-2 && atBoundary && subs[o.filters[0]] {
+				lateUnsub = o.filters[0]
+			}
 			delete(subs, o.filters[0])
 		}
 	}
-	// what the watchers saw so far
-	pwPk, _ := w.pw.Recv()
-	before, _ := presenceEvents(pwPk)
-	_ = before
-	w.will.Recv()
-	w.other.Recv()
 
 	// the victim's entries must be in the trie now (sanity of the model, also a C02 style check)
 	contract := w.b.Opts.Lic.Contract
@@ -288,6 +309,12 @@ func (w *c08World) oneCut(cut, npk int, ending string, build func(string) ([]byt
 
 	// ---- the ending -------------------------------------------------------
 	switch ending {
+	case "deadwrite":
+		// a delivery to the half-dead connection fails first, then the read side ends
+		w.other.Send(w.other.Publish(w.kAll.Key+"/a/b/", []byte("pre"), false, false))
+		world.Settle()
+		v.Conn.Close()
+		c.Fault("write-side-dead-first")
 	case "close":
 		v.Conn.Close()
 		c.Fault("abrupt-close")
@@ -397,6 +424,12 @@ func (w *c08World) oneCut(cut, npk int, ending string, build func(string) ([]byt
 			c.Check("presence-dup", disc+tw, "cut=%d ending=%s: presence watcher got %d unsubscribes for %s", cut, ending, got[k], f)
 		}
 		delete(got, k)
+	}
+	if lateUnsub != "" {
+		k := fmt.Sprintf("unsubscribe %s %s", lateUnsub, user)
+		if got[k] == 1 {
+			delete(got, k)
+		}
 	}
 	for k, n := range got {
 		if strings.HasPrefix(k, "unsubscribe") && n > 0 {
